@@ -37,6 +37,10 @@ HISTORIES = [
     [("USR2F", "a"), ("USR2F", "a"), ("STOP", "a")],              # 13
     # 14 (daemon): the documented back-out (retire old workers, stop the new master, HUP), then the next upgrade
     [("USR2", "a"), ("WINCH", "a"), ("STOP", "b"), ("HUP", "a"), ("USR2", "a"), ("STOP", "a")],
+    # 15 (daemon): the old master's workers retired and brought back by HUP while the upgrade is pending, then the OLD master leaves
+    [("USR2", "a"), ("WINCH", "a"), ("HUP", "a"), ("STOP", "a")],
+    # 16: HUP to the old master while the upgrade is pending, a further USR2 (ignored), the old master leaves
+    [("USR2", "a"), ("HUP", "a"), ("USR2", "a"), ("STOP", "a")],
 ]
 
 
@@ -55,7 +59,8 @@ def run_history(hist, bind, stopsig, wk="sync", nopid=False, extra_args=()):
     extra_args may contain the pseudo-argument "@release": the server runs from a symlinked release directory and
     every USR2 is preceded by a deployment (symlink repointed, previous release removed)"""
     release = "@release" in extra_args
-    extra_args = tuple(x for x in extra_args if x != "@release")
+    relcfg = "@relcfg" in extra_args        # -c names the configuration file relative to the start directory, --chdir another directory
+    extra_args = tuple(x for x in extra_args if x not in ("@release", "@relcfg"))
     early = any(op == "USR2_EARLY" for op, _ in hist)
     daemon = any(op == "WINCH" for op, _ in hist)
     flag = os.path.join(rp._scratch(), "broken_%d_%d" % (os.getpid(), threading.get_ident()))
@@ -64,7 +69,7 @@ def run_history(hist, bind, stopsig, wk="sync", nopid=False, extra_args=()):
         env["VERIF_BOOT_SLEEP"] = "1.5"
     s = rp.Server(wk, workers=1, bind=bind, pidfile=not nopid, daemon=daemon,
                   args=["--graceful-timeout", "3"] + (["--preload"] if early else []) + list(extra_args), env=env, name="c14",
-                  release=release)
+                  release=release, relcfg=relcfg)
     masters = {}           # name -> pid
     stop = threading.Event()
     counters = {"refused": 0, "complete": 0, "failed": 0}
@@ -123,7 +128,17 @@ def run_history(hist, bind, stopsig, wk="sync", nopid=False, extra_args=()):
                 pts = [threading.Thread(target=probe) for _ in range(6)]
                 [t.start() for t in pts]
                 [t.join() for t in pts]
-            return {"e": "chk", "alive": al, "base": name_of(read_pid(s.pidfile)), "two": name_of(read_pid(str(s.pidfile) + ".2")),
+            staffed = set()
+            t_end = time.time() + 1.5
+            while time.time() < t_end and len(staffed) < len(al):
+                booted = set(s.booted())
+                for n in al:
+                    if n not in staffed and any(c in booted and c not in masters.values() and rp.proc_state(c) not in (None, "Z")
+                                                for c in rp.children_of(masters[n])):
+                        staffed.add(n)
+                if len(staffed) < len(al):
+                    time.sleep(0.05)
+            return {"e": "chk", "staffed": sorted(staffed), "alive": al, "base": name_of(read_pid(s.pidfile)), "two": name_of(read_pid(str(s.pidfile) + ".2")),
                     "sock": bool(s.sockpath and os.path.exists(s.sockpath)), "refused": refused, "nmasters": len(al),
                     "serving": sorted(served)}
         ev = [checkpoint()]
@@ -225,7 +240,7 @@ def run_history(hist, bind, stopsig, wk="sync", nopid=False, extra_args=()):
         stop.set()
         [t.join(6) for t in ths]
         tr = {"unix": bind == "unix", "nopid": bool(nopid), "ev": ev}
-        return tr, {"hist": hist, "bind": bind, "nopid": bool(nopid), "extra_args": list(extra_args) + (["@release"] if release else []), "sig": int(stopsig), "complete": counters["complete"], "failed": counters["failed"],
+        return tr, {"hist": hist, "bind": bind, "nopid": bool(nopid), "extra_args": list(extra_args) + (["@release"] if release else []) + (["@relcfg"] if relcfg else []), "sig": int(stopsig), "complete": counters["complete"], "failed": counters["failed"],
                     "masters": masters}
     finally:
         stop.set()
@@ -279,7 +294,10 @@ def c14(ctx):
                 (HISTORIES[6], "unix", signal.SIGTERM), (HISTORIES[7], "tcp", signal.SIGQUIT),
                 # worker timeouts switched off (--timeout 0): promotion and reaping must not depend on the watchdog's tick
                 (HISTORIES[4], "tcp", signal.SIGTERM, False, ("--timeout", "0")),
-                (HISTORIES[14], "unix", signal.SIGTERM),
+                (HISTORIES[14], "unix", signal.SIGTERM), (HISTORIES[15], "unix", signal.SIGTERM), (HISTORIES[16], "unix", signal.SIGTERM),
+                (HISTORIES[0], "tcp", signal.SIGTERM, False, ("@relcfg",)),
+                # workers are recycled (--max-requests under the client load) while the upgrade is pending
+                (HISTORIES[0], "tcp", signal.SIGTERM, False, ("--max-requests", "3")),
                 # a "current -> releases/N" deployment: every USR2 follows a switch of the symlink
                 (HISTORIES[4], "unix", signal.SIGTERM, False, ("@release",))]
     else:
@@ -287,6 +305,7 @@ def c14(ctx):
         plan += [(HISTORIES[k], b, signal.SIGTERM, True) for k in (0, 1, 3, 4, 6, 7) for b in ("tcp", "unix")]
         plan += [(HISTORIES[k], b, signal.SIGTERM, False, ("--timeout", "0")) for k in (0, 1, 3, 4) for b in ("tcp", "unix")]
         plan += [(HISTORIES[k], b, signal.SIGTERM, False, ("@release",)) for k in (0, 1, 3, 4) for b in ("tcp", "unix")]
+        plan += [(HISTORIES[k], b, signal.SIGTERM, False, ("--max-requests", "3")) for k in (0, 1, 2, 3) for b in ("tcp", "unix")]
     from props.reload_real import _parallel
     results = _parallel(plan, lambda a, i: run_history(a[0], a[1], a[2], wk=rng.choice(["sync", "gthread"]), nopid=len(a) > 3 and a[3],
                                                            extra_args=a[4] if len(a) > 4 else ()), par=11)
